@@ -622,13 +622,21 @@ class Config:
         a = f.node.args
         names = [p.arg for p in a.posonlyargs + a.args]
         args = []
-        for n in names:
+        defaults = None
+        for i, n in enumerate(names):
             if n == 'ghost':
                 args.append(path.ghost)
             elif n in env:
                 args.append(env[n])
             else:
-                raise Unsupported(f'clause {f.qualname} needs {n!r} which is not available here')
+                # a clause parameter with a default value is optional: it is bound to the default when the name does
+                # not exist here (e.g. the counter `_i` of a `for` loop in an invariant that is also meant for a `while`)
+                if defaults is None:
+                    defaults = path.func_defaults(f)['pos']
+                di = i - (len(names) - len(defaults))
+                if di < 0:
+                    raise Unsupported(f'clause {f.qualname} needs {n!r} which is not available here')
+                args.append(defaults[di])
         return args
 
     def clauses(self, path, fn, env, oblige=False):
